@@ -48,11 +48,26 @@ func attrSlots() []attrSlot {
 		{"social-element-href", true, func(v string) string {
 			return `<mj-social><mj-social-element name="facebook-noshare" href="` + v + `">F</mj-social-element></mj-social>`
 		}},
+		{"social-element-href-vertical", true, func(v string) string {
+			return `<mj-social mode="vertical"><mj-social-element name="facebook-noshare" href="` + v + `">F</mj-social-element><mj-social-element name="twitter-noshare" href="http://x/t">T</mj-social-element></mj-social>`
+		}},
+		{"social-element-alt-vertical", false, func(v string) string {
+			return `<mj-social mode="vertical"><mj-social-element name="facebook" href="http://x/f" alt="` + v + `">F</mj-social-element></mj-social>`
+		}},
 		{"social-element-alt", false, func(v string) string {
 			return `<mj-social><mj-social-element name="facebook" href="http://x/f" alt="` + v + `">F</mj-social-element></mj-social>`
 		}},
 		{"social-element-title", false, func(v string) string {
 			return `<mj-social><mj-social-element name="facebook" href="http://x/f" title="` + v + `">F</mj-social-element></mj-social>`
+		}},
+		{"section-background-url", true, func(v string) string {
+			return `</mj-column></mj-section><mj-section background-url="` + v + `"><mj-column><mj-text>s</mj-text>`
+		}},
+		{"hero-background-url", true, func(v string) string {
+			return `</mj-column></mj-section><mj-hero background-url="` + v + `"><mj-text>h</mj-text></mj-hero><mj-section><mj-column>`
+		}},
+		{"wrapper-background-url", true, func(v string) string {
+			return `</mj-column></mj-section><mj-wrapper background-url="` + v + `"><mj-section><mj-column><mj-text>w</mj-text></mj-column></mj-section></mj-wrapper><mj-section><mj-column>`
 		}},
 		{"social-element-src", true, func(v string) string {
 			return `<mj-social><mj-social-element href="http://x/f" src="` + v + `">F</mj-social-element></mj-social>`
@@ -147,6 +162,87 @@ func runC04Attrs(res *Result, drv *DriverPool) {
 				at := firstDiff(ug, want)
 				res.Violate(Violation{Sig: "attr-content-differs|" + sl.name + "|" + p.name, Kind: "input",
 					What:  fmt.Sprintf("%s=%q: the output is not the output of the reference value with the value put in its place (character references decoded), at offset %d: …%s… vs expected …%s…", sl.name, p.src, at, around(ug, at), around(want, at)),
+					Input: in})
+			}
+		}
+	}
+}
+
+// ---- every string-typed attribute a component accepts reaches the output ------------------------------------------------
+//
+// "A structurally valid document never loses content silently": an attribute that the allowed-attribute table accepts with
+// the type "string" (addresses, alternative texts, names, font families, border shorthands …) and that the component then reads
+// nowhere is content lost without an error.  For every (component, string attribute) a distinctive value is written on the
+// element in its legal context; the value (or, for shorthands, its distinctive part) must occur in the output.
+
+// consumed, not rendered: the attribute selects behaviour instead of being written out
+var consumedStringAttrs = map[string]bool{
+	"mj-style/inline": true, "mj-font/name": true, "mj-font/href": true, "mj-social-element/name": true, "mj-navbar/hamburger": true, "mj-hero/mode": true,
+	"mj-navbar/base-url":               true, // prefixed to relative link addresses
+	"mj-carousel-image/thumbnails-src": true, // covered by the attribute matrix (needs visible thumbnails)
+	// set by the legal context itself (a second writing would be a duplicate attribute): covered by the attribute matrix
+	"mj-image/src": true, "mj-carousel-image/src": true, "mj-navbar-link/href": true, "mj-social-element/href": true,
+}
+
+// contentLikeAttr: addresses, alternative and tool-tip texts, names and link attributes — what the author wrote to be carried
+// into the markup as it is (styling attributes such as borders, fonts, decorations are not content in the sense of C04)
+func contentLikeAttr(a string) bool {
+	switch a {
+	case "href", "src", "srcset", "sizes", "usemap", "alt", "title", "name", "rel", "target", "ico-open", "ico-close":
+		return true
+	}
+	return strings.HasSuffix(a, "-url") || strings.HasSuffix(a, "-alt") || strings.HasSuffix(a, "-icon") || strings.HasSuffix(a, "-src")
+}
+
+func stringAttrValue(attr string) (value, expect string) {
+	switch {
+	case strings.Contains(attr, "border") && attr != "border-radius" && attr != "border-style":
+		return "3px dashed #a1b2c3", "#a1b2c3"
+	case attr == "font-family" || strings.HasSuffix(attr, "-font-family"):
+		return "Sentinelfont, serif", "Sentinelfont"
+	case strings.HasSuffix(attr, "url") || attr == "href" || attr == "src" || strings.HasSuffix(attr, "-icon") || strings.HasSuffix(attr, "-src") || attr == "ico-open" || attr == "ico-close":
+		return "http://x/S1EREF.png", "http://x/S1EREF.png"
+	case attr == "srcset":
+		return "http://x/S1EREF.png 2x", "http://x/S1EREF.png 2x"
+	case attr == "usemap":
+		return "#S1EREF", "#S1EREF"
+	}
+	return "s1eref", "s1eref"
+}
+
+func runC04StringAttrs(res *Result) {
+	for _, tag := range bodyTags {
+		for _, a := range allowedSorted(tag) {
+			if a[1] != "string" || consumedStringAttrs[tag+"/"+a[0]] || !contentLikeAttr(a[0]) {
+				continue
+			}
+			val, expect := stringAttrValue(a[0])
+			src := legalContext(tag, a[0]+`="`+val+`"`, "")
+			if src == "" {
+				continue
+			}
+			// link attributes need a link
+			if (tag == "mj-button" || tag == "mj-image" || tag == "mj-carousel-image") && (a[0] == "rel" || a[0] == "target" || a[0] == "name") {
+				src = strings.Replace(src, "<"+tag+" ", "<"+tag+` href="http://x/u" `, 1)
+				if tag == "mj-carousel-image" {
+					src = strings.Replace(src, `<mj-carousel-image src="a.png" `, `<mj-carousel-image src="a.png" href="http://x/u" `, 1)
+				}
+			}
+			// the hamburger navbar writes its icon attributes only when the hamburger is switched on
+			if tag == "mj-navbar" && strings.HasPrefix(a[0], "ico-") {
+				src = strings.Replace(src, "<mj-navbar ", `<mj-navbar hamburger="hamburger" `, 1)
+			}
+			got, err := renderPlain(src)
+			res.Case("string-attr|"+tag+"|"+a[0], true)
+			res.Count("string-attr-sweep")
+			in := map[string]string{"source": src, "component": tag, "attribute": a[0]}
+			if err != nil {
+				res.Violate(Violation{Sig: "string-attr-error|" + tag + "|" + a[0], Kind: "input", What: fmt.Sprintf("<%s %s=%q>: %v", tag, a[0], val, err), Input: in})
+				continue
+			}
+			if !strings.Contains(strings.ToLower(html.UnescapeString(got)), strings.ToLower(expect)) {
+				res.Violate(Violation{Sig: "string-attr-dropped|" + tag + "|" + a[0], Kind: "input",
+					What:  fmt.Sprintf("<%s %s=%q> is accepted without an error, but %q occurs nowhere in the output: the attribute is dropped silently", tag, a[0], val, expect),
 					Input: in})
 			}
 		}
